@@ -4,7 +4,7 @@ C08: one level of overlay, abstractly.  `res` is the ordered map obtained from t
 computes next-key, entry listings and key listings from (`ups`, `dels`, `base`) agrees with the
 ordered-map operations on `res`.
 -/
-import Gossamer.Lib.C08SimStep
+import Gossamer.Lib.C08Sim
 set_option linter.unusedSectionVars false
 set_option linter.unusedSimpArgs false
 namespace Gossamer.C08
@@ -104,25 +104,6 @@ theorem nextSorted_eq (key : Bytes) (l : List Bytes) (hs : KSet.Sorted l) :
         simp [firstGt, List.find?_cons, h3]
 
 /-! ### keys of maps -/
-
-theorem keys_ins (k v : Bytes) (m : KMap Bytes) : KMap.keys (KMap.ins k v m) = KSet.ins k (KMap.keys m) := by
-  induction m with
-  | nil => rfl
-  | cons e r ih =>
-    simp only [KMap.ins, KMap.keys, List.map_cons, KSet.ins]
-    split
-    · rename_i he; simp [he]
-    · split
-      · rfl
-      · simp only [List.map_cons, KMap.keys] at ih ⊢
-        rw [ih]
-
-theorem keys_del (k : Bytes) (m : KMap Bytes) : KMap.keys (KMap.del k m) = KSet.del k (KMap.keys m) := by
-  induction m with
-  | nil => rfl
-  | cons e r ih =>
-    simp only [KMap.del, KMap.keys, KSet.del, List.filter_cons, List.map_cons] at ih ⊢
-    split <;> simp [ih]
 
 theorem mem_keys_iff {α : Type} (m : KMap α) (k : Bytes) : k ∈ KMap.keys m ↔ KMap.find k m ≠ none := by
   unfold KMap.keys
@@ -291,6 +272,121 @@ theorem Overlay.next (h : Overlay base ups dels res) (k : Bytes) :
             · subst t; exact Or.inr e
             · rw [t] at hbu'; cases hbu'
 
+/-! #### entry listing -/
+
+theorem find_map_some (es : Entries) (k : Bytes) :
+    KMap.find k (es.map (fun e => (e.1, some e.2))) = (OMap.get k es).map some := by
+  induction es with
+  | nil => rfl
+  | cons e r ih =>
+    simp only [List.map_cons, KMap.find, OMap.get]
+    by_cases h : e.1 = k <;> simp [h, ih]
+
+theorem sorted_map_some {es : Entries} (h : OMap.Sorted es) :
+    KMap.Sorted (es.map (fun e => (e.1, some e.2))) := by
+  induction es with
+  | nil => trivial
+  | cons e r ih =>
+    refine ⟨?_, ih h.2⟩
+    intro x hx
+    obtain ⟨y, hy, rfl⟩ := List.mem_map.mp hx
+    exact h.1 y hy
+
+theorem find_foldl_ins {α : Type} (f : Bytes → α) (l : List (Bytes × Bytes)) (hn : NodupKeys l)
+    (m : KMap α) (k : Bytes) :
+    KMap.find k (l.foldl (fun m e => KMap.ins e.1 (f e.2) m) m) =
+      ov ((KMap.find k l).map f) (KMap.find k m) := by
+  induction l generalizing m with
+  | nil => rfl
+  | cons e r ih =>
+    simp only [List.foldl_cons, KMap.find]
+    rw [ih hn.tail, KMap.find_ins]
+    by_cases hk : e.1 = k
+    · subst hk
+      simp [hn.head_not_mem]
+    · have : ¬ k = e.1 := fun h => hk h.symm
+      simp [hk, this]
+
+theorem sorted_foldl_ins {α : Type} (f : Bytes → α) (l : List (Bytes × Bytes)) {m : KMap α}
+    (h : KMap.Sorted m) : KMap.Sorted (l.foldl (fun m e => KMap.ins e.1 (f e.2) m) m) := by
+  induction l generalizing m with
+  | nil => exact h
+  | cons e r ih => exact ih (KMap.sorted_ins _ _ h)
+
+theorem find_foldl_del {α : Type} (ds : List Bytes) (m : KMap α) (k : Bytes) :
+    KMap.find k (ds.foldl (fun m d => KMap.del d m) m) = if k ∈ ds then none else KMap.find k m := by
+  induction ds generalizing m with
+  | nil => simp
+  | cons d r ih =>
+    simp only [List.foldl_cons, List.mem_cons]
+    rw [ih, KMap.find_del]
+    by_cases h1 : k ∈ r
+    · simp [h1]
+    · by_cases h2 : k = d <;> simp [h1, h2]
+
+theorem sorted_foldl_del {α : Type} (ds : List Bytes) {m : KMap α} (h : KMap.Sorted m) :
+    KMap.Sorted (ds.foldl (fun m d => KMap.del d m) m) := by
+  induction ds generalizing m with
+  | nil => exact h
+  | cons d r ih => exact ih (KMap.sorted_del _ h)
+
+/-- `TrieEntries` / the map built by `GetKeysWithPrefixFromChild` inside a transaction -/
+theorem Overlay.entries (h : Overlay base ups dels res) :
+    dels.foldl (fun m k => KMap.del k m)
+        (ups.foldl (fun (m : KMap (Option Bytes)) e => KMap.ins e.1 (some e.2) m)
+          (base.map (fun e => (e.1, some e.2)))) =
+      res.map (fun e => (e.1, some e.2)) := by
+  apply KMap.ext (sorted_foldl_del _ (sorted_foldl_ins _ _ (sorted_map_some h.sbase)))
+    (sorted_map_some h.sres)
+  intro k
+  rw [find_foldl_del, find_foldl_ins some _ (nodupKeys_of_sorted h.sups), find_map_some,
+    find_map_some, h.get]
+  by_cases hd : k ∈ dels
+  · simp [hd]
+  · simp only [hd, if_false]
+    cases KMap.find k ups <;> simp
+
 end overlay
+
+/-! ### the main trie as an overlay: committed view, diff, view of the level -/
+
+theorem get_foldl_upsert_congr (es : Entries) (m m' : Entries) (k : Bytes)
+    (h : OMap.get k m = OMap.get k m') :
+    OMap.get k (es.foldl (fun m e => OMap.upsert e.1 e.2 m) m) =
+      OMap.get k (es.foldl (fun m e => OMap.upsert e.1 e.2 m) m') := by
+  induction es generalizing m m' with
+  | nil => exact h
+  | cons e r ih =>
+    simp only [List.foldl_cons]
+    apply ih
+    rw [OMap.get_upsert, OMap.get_upsert, h]
+
+theorem view_sorted (Hc : Entries → Bytes) {l : Logical} (h : OMap.Sorted l.main) :
+    OMap.Sorted (Logical.view Hc l) := by
+  unfold Logical.view
+  generalize Logical.rootEntries Hc l.kids = es
+  generalize l.main = m at h
+  induction es generalizing m with
+  | nil => exact h
+  | cons e r ih => exact ih _ (OMap.sorted_upsert _ _ h)
+
+theorem view_overlay (Hc : Entries → Bytes) {CK : Bytes → Bool} {b : Logical} {d : Diff}
+    (hb : BaseInv CK b) (hd : DiffInv CK d) :
+    Overlay (Logical.view Hc b) d.c.upserts d.c.deletes
+      (Logical.view Hc { main := (effL b d).main, kids := b.kids }) := by
+  have hw := effL_wf (d := d) hb.wf
+  refine ⟨view_sorted Hc hb.wf.main, hd.sorted.c.ups, view_sorted Hc hw.main, hd.upsDel, ?_⟩
+  intro x
+  by_cases hc : Logical.isChildKey x = true
+  · have h1 : x ∉ d.c.deletes := fun h => by
+      have := hd.delsNoChild x h; rw [hc] at this; cases this
+    have h2 := hd.upsCK x (Or.inr hc)
+    simp only [h1, if_false, h2, ov_none]
+    unfold Logical.view
+    apply get_foldl_upsert_congr
+    simp only
+    rw [hw.noChild x hc, hb.wf.noChild x hc]
+  · have hc' : Logical.isChildKey x = false := by simpa using hc
+    rw [view_get Hc _ x hc', view_get Hc _ x hc', eff_main hb hd]
 
 end Gossamer.C08
